@@ -251,10 +251,6 @@ Definition m_dist_leaf_kwargs (m : midline) (kw : kwargs) : list kwargs :=
   flat_map (fun child => b_dist_leaf_kwargs (obj_kwargs child split glob)) (m_children m).
 Definition m_dist_kw_agree (m : midline) (kw : kwargs) : Prop :=
   forall kwl k, In kwl (m_dist_leaf_kwargs m kw) -> In k (map fst (u_dist_items (ext_i m))) -> u_lk kwl k = u_lk kw k.
-(** a sufficient syntactic condition: no keyword starts with the name of a child *)
-Definition no_child_prefix (children : list string) (kw : kwargs) : Prop :=
-  forall k, In k (map fst kw) -> ~ In (head_of k) children.
-
 (** the central model is itself a Bilateral whose own setter splits "ipsi_..." once
     more: a doubly prefixed keyword "ipsi_ipsi_..." would reach central.ipsi but not
     ext.ipsi / noext.ipsi *)
@@ -326,13 +322,14 @@ Definition C11_cfg_all_or_first_stmt : Prop :=
     (forall b, b_consistent b -> snd (b_cfg (leaf_cfg o) b) = snd (leaf_cfg o (b_ipsi b))) /\
     (forall m, m_consistent m -> snd (m_cfg (leaf_cfg o) m) = snd (leaf_cfg o (ext_i m))) /\
     (forall h, h_consistent h -> snd (h_cfg (leaf_cfg o) h) = snd (leaf_cfg o (h_hpv h))).
-(** the setters keep [b_names_ok] / [m_wf] provided the new T-stage names are acceptable *)
+(** the operations keep [b_names_ok] / [m_wf] provided the leaves stay well-named (a new
+    T-stage must not be called like an arc or a reserved word, DESIGN.md section 6) *)
 Definition C11_cfg_wf_stmt : Prop :=
   forall o,
     (forall b, b_names_ok b = true -> b_consistent b -> snd (b_cfg (leaf_cfg o) b) = true ->
        u_names_ok (fst (leaf_cfg o (b_ipsi b))) = true -> b_names_ok (fst (b_cfg (leaf_cfg o) b)) = true) /\
     (forall m, m_wf m = true -> m_consistent m -> snd (m_cfg (leaf_cfg o) m) = true ->
-       u_names_ok (fst (leaf_cfg o (ext_i m))) = true -> m_wf (fst (m_cfg (leaf_cfg o) m)) = true).
+       (forall u, In u (all_leaves m) -> u_names_ok (fst (leaf_cfg o u)) = true) -> m_wf (fst (m_cfg (leaf_cfg o) m)) = true).
 
 (** Consequence: the parameters the composite reports are the ones every part holds.
     [u_got leaf] is the leaf's own get_params() *)
@@ -355,9 +352,75 @@ Definition m_reported_ok (m : midline) (k : path) (v : Qc) : Prop :=
   else if str_eqb h "ext" then In (tl (tl k), v) (u_T (ext_c m))
   else if str_eqb h "contra" then In (tl k, v) (u_T (noext_c m)) \/ holds_L (contra_leaves m) (tl k) v
   else holds_L (ipsi_leaves m ++ contra_leaves m) k v \/ (forall u, In u (all_leaves m) -> In (k, v) (u_dist_items u)).
+(** what Midline.get_params reports (names and order, per use_mixing and LNL symmetry):
+    ipsilateral tumour spread from ext.ipsi, contralateral tumour spread from
+    noext.contra (and ext.contra without mixing), LNL spread from the ext model,
+    distributions from ext.ipsi, midext_prob last.  That get_params returns exactly
+    this list is C10's theorem [mid_names_nodup]; here it is the premise [m_got m = ...] *)
+Definition c11_mid_items (m : midline) : list (path * Qc) :=
+  let ei := ext_i m in let ec := ext_c m in let nc := noext_c m in
+  let mixing := match ml_mixing m with Some mix => [(["mixing"], mix)] | None => [] end in
+  let midext := [(["midext"; "prob"], ml_midext m)] in
+  match ml_mixing m, ml_symL m with
+  | Some _, true => pre ["ipsi"] (u_T ei) ++ pre ["contra"] (u_T nc) ++ mixing ++ u_L ei ++ u_dist_items ei ++ midext
+  | Some _, false => pre ["ipsi"] (u_T ei ++ u_L ei) ++ pre ["contra"] (u_T nc ++ u_L ec) ++ mixing ++ u_dist_items ei ++ midext
+  | None, true => pre ["ipsi"] (u_T ei) ++ pre ["noext"; "contra"] (u_T nc) ++ pre ["ext"; "contra"] (u_T ec)
+                  ++ u_L ei ++ u_dist_items ei ++ midext
+  | None, false => pre ["ipsi"] (u_T ei ++ u_L ei) ++ pre ["noext"; "contra"] (u_T nc) ++ pre ["ext"; "contra"] (u_T ec)
+                   ++ pre ["contra"] (u_L ec) ++ u_dist_items ei ++ midext
+  end.
 Definition C11_midline_reported_params_are_used_stmt : Prop :=
-  forall m l, m_wf m = true -> m_consistent m -> m_got m = Some l ->
-    forall k v, In (k, v) l -> m_reported_ok m k v.
+  forall m, m_wf m = true -> m_consistent m -> m_got m = Some (c11_mid_items m) ->
+    forall k v, In (k, v) (c11_mid_items m) -> m_reported_ok m k v.
+
+(** * Histories *)
+(** one call of the composite's own API *)
+Inductive call := CallSet (s : setter) (a : args) (kw : kwargs) | CallCfg (o : cfgop).
+Definition is_some_args (o : option args) : bool := match o with Some _ => true | None => false end.
+Definition b_step (b : bilateral) (c : call) : bilateral * bool :=
+  match c with
+  | CallSet s a kw => (fst (b_call s b a kw), is_some_args (snd (b_call s b a kw)))
+  | CallCfg o => b_cfg (leaf_cfg o) b
+  end.
+Definition m_step (m : midline) (c : call) : midline * bool :=
+  match c with
+  | CallSet s a kw => (fst (m_call s m a kw), is_some_args (snd (m_call s m a kw)))
+  | CallCfg o => m_cfg (leaf_cfg o) m
+  end.
+(** the domain of section 6 for one call in the current state *)
+Definition b_call_ok (b : bilateral) (c : call) : Prop :=
+  match c with
+  | CallSet s a kw => touches_dists s = true -> b_dist_kw_agree b kw
+  | CallCfg o => u_names_ok (fst (leaf_cfg o (b_ipsi b))) = true
+  end.
+Definition m_call_ok (m : midline) (c : call) : Prop :=
+  match c with
+  | CallSet s a kw => (touches_dists s = true -> m_dist_kw_agree m kw) /\ (ml_central m <> None -> no_double_ipsi kw)
+  | CallCfg o => forall u, In u (all_leaves m) -> u_names_ok (fst (leaf_cfg o u)) = true
+  end.
+(** every call of the history is in the domain and returns normally *)
+Fixpoint b_run_ok (b : bilateral) (cs : list call) : Prop :=
+  match cs with
+  | [] => True
+  | c :: r => b_call_ok b c /\ snd (b_step b c) = true /\ b_run_ok (fst (b_step b c)) r
+  end.
+Fixpoint b_run (b : bilateral) (cs : list call) : bilateral :=
+  match cs with [] => b | c :: r => b_run (fst (b_step b c)) r end.
+Fixpoint m_run_ok (m : midline) (cs : list call) : Prop :=
+  match cs with
+  | [] => True
+  | c :: r => m_call_ok m c /\ snd (m_step m c) = true /\ m_run_ok (fst (m_step m c)) r
+  end.
+Fixpoint m_run (m : midline) (cs : list call) : midline :=
+  match cs with [] => m | c :: r => m_run (fst (m_step m c)) r end.
+(** the headline: after ANY history of normally returning calls on a freshly
+    constructed composite, the parts are consistent (hence also after every prefix) *)
+Definition C11_bilateral_history_stmt : Prop :=
+  forall u symT symL cs, u_names_ok u = true -> b_run_ok (new_bilateral u symT symL) cs ->
+    b_names_ok (b_run (new_bilateral u symT symL) cs) = true /\ b_consistent (b_run (new_bilateral u symT symL) cs).
+Definition C11_midline_history_stmt : Prop :=
+  forall u mix cen evo unk symL cs, u_names_ok u = true -> m_run_ok (new_midline u mix cen evo unk symL) cs ->
+    m_wf (m_run (new_midline u mix cen evo unk symL) cs) = true /\ m_consistent (m_run (new_midline u mix cen evo unk symL) cs).
 
 (** * Findings *)
 (** KNOWN FINDING (D8): HPVUnilateral copies the LNL spread hpv -> nohpv inside
@@ -406,8 +469,43 @@ Definition m_param_count (m : midline) : nat :=
 Definition m_shapes_agree (m : midline) : Prop :=
   forall u, In u (ipsi_leaves m ++ contra_leaves m) ->
     map fst (u_T u) = map fst (u_T (ext_i m)) /\ map fst (u_L u) = map fst (u_L (ext_i m)).
+(** NOT PROVED in SyncProofs.v (the harness checks it on generated histories, stream
+    "recovery"); kept as the precise statement of what is left for Midline *)
 Definition C11_midline_full_assignment_restores_stmt : Prop :=
   forall m v rest, m_wf m = true -> m_shapes_agree m -> m_config_sim m ->
     length v = m_param_count m ->
     snd (m_set_params m (vals v ++ rest) []) <> None ->
     m_consistent (fst (m_set_params m (vals v ++ rest) [])).
+
+(** * What the correspondence check evaluates and prints *)
+Definition cfg_model (o : cfgop) (m : model) : model * bool :=
+  match m with
+  | MUni u => let r := leaf_cfg o u in (MUni (fst r), snd r)
+  | MBi b => let r := b_cfg (leaf_cfg o) b in (MBi (fst r), snd r)
+  | MMid ml => let r := m_cfg (leaf_cfg o) ml in (MMid (fst r), snd r)
+  | MHpv h => let r := h_cfg (leaf_cfg o) h in (MHpv (fst r), snd r)
+  end.
+Definition model_step (m : model) (c : call) : model * bool :=
+  match c with
+  | CallSet s a kw => let r := call_setter s m a kw in (fst r, is_some_args (snd r))
+  | CallCfg o => cfg_model o m
+  end.
+Definition out_mod (nm : string * modality) := (fst nm, qout (m_spec (snd nm)), qout (m_sens (snd nm)), m_path (snd nm)).
+Definition out_dist (maxt : nat) (td : string * dist) :=
+  (fst td,
+   match snd td with
+   | Frozen p => (false, @nil (string * (Z * Z)), Some (qouts p))
+   | Param f kws => (true, map (fun kv => (fst kv, qout (snd kv))) kws, option_map qouts (pmf maxt (snd td)))
+   end).
+Definition out_leaf_cfg (u : uni) := (map out_mod (u_mods u), map (out_dist (u_maxt u)) (u_dists u), u_maxt u).
+Definition out_state (m : model) := (out_model m, map (fun pu => (fst pu, out_leaf_cfg (snd pu))) (model_leaves m)).
+(** a history from a given object: after every call, whether it returned normally and
+    everything observable *)
+Fixpoint run_ops (m : model) (cs : list call) :=
+  match cs with
+  | [] => []
+  | c :: r => let '(m', ok) := model_step m c in (ok, out_state m') :: run_ops m' r
+  end.
+Definition final_model (m : model) (cs : list call) : model := fold_left (fun m c => fst (model_step m c)) cs m.
+(** the transition matrix of every leaf *)
+Definition out_transitions (m : model) := map (fun pu => (fst pu, qoutm (transition_matrix (snd pu)))) (model_leaves m).
